@@ -4,6 +4,7 @@ import Verif.Spec.HtmlRefs
 import Verif.Spec.HtmlTraits
 import Verif.Spec.CssUnits
 import Verif.Spec.TableChecks
+import Verif.Spec.TraitChecks
 import Verif.Gen.EntitiesHtml
 import Verif.Gen.TextRevHtml
 import Verif.Gen.EntitiesXml
